@@ -35,6 +35,28 @@ def claim_holds(env, c):
     return bool(c)
 
 
+def spot_failure(job, env, entry, t, label):
+    """inputs of path t (pairwise distinct, > 1000 where the path allows) at which the claim `label` fails on a plain-integer
+    run of the harness, or None"""
+    from symtrace.concrete import run_concrete
+    cache = t.extra.setdefault("spot", {})
+    if "out" not in cache:
+        ins = [v.t for v in job.vals.values()]
+        spread = [ins[i] != ins[j] for i in range(len(ins)) for j in range(i)] + [v > 1000 + 7 * i for i, v in enumerate(ins)]
+        st, m = H.solve(t.path.assume + t.path.pc, spread, 4000)
+        if st != "sat":
+            st, m = H.solve(t.path.assume + t.path.pc, [], 4000)
+        cache["out"] = None
+        if st == "sat":
+            cache["inputs"] = H.model_inputs(m, job.vals)
+            out = run_concrete(env, entry, job.cfg, cache["inputs"])
+            if out["outcome"] == "ok":
+                cache["out"] = {l: c for l, c in out["result"]}
+    if cache["out"] is None or label not in cache["out"]:
+        return None
+    return None if claim_holds(env, cache["out"][label]) else cache["inputs"]
+
+
 def concrete_fallback(job, env, entry, why):
     from symtrace.concrete import run_concrete, Kit
     names = list(entry.ins)
@@ -119,6 +141,15 @@ def run_obs_job(pid, env, spec, entry, catmod, expect_raise=None, spot_points=Tr
                 else:
                     job.inconclusive("claim %s: normal forms differ and no evaluation point found" % label)
                 continue
+            if type(c) is tuple and c[0] == "cong" and t.path.prod_axiom_ids and job.vals:
+                # normal forms differ on a path with non-linear definitions: before the solver is asked (which may not
+                # return on such a query) the claim is evaluated on plain integers at a non-degenerate point of the path;
+                # a failure there is a replayable violation
+                bad = spot_failure(job, env, entry, t, label)
+                if bad is not None:
+                    job.obligation("sat")
+                    job.finding("obs", "claim '%s' fails at the evaluation point %s" % (label, bad), dict(kind="obs", inputs=bad, label=label))
+                    continue
             ct = claim_term(env, c)
             if z3.is_true(z3.simplify(ct)):
                 H.STATS.syntactic += 1
@@ -174,7 +205,7 @@ def run_obs_job(pid, env, spec, entry, catmod, expect_raise=None, spot_points=Tr
             # vacuity twin: the negation of the last non-trivial claim must be refutable-or-satisfiable, i.e. the claim
             # is not vacuously true because the path facts are inconsistent
             # (for very large paths only the path condition is tested: the axioms are definitions of fresh symbols)
-            st, _ = H.solve(facts if len(facts) <= 600 else (t.path.assume + t.path.pc), [], job.timeout)
+            st, _ = H.solve(facts if (len(facts) <= 600 and not job.spec.get("skip_tv")) else (t.path.assume + t.path.pc), [], job.timeout)
             job.twin(st == "sat")
             twin_done = True
         job.sample(dict(path=pi, claims=[l for l, _ in obs][:6], path_condition=[str(z3.simplify(c))[:100] for c in t.path.pc[:3]]))
